@@ -20,6 +20,7 @@ the data oracle).  Invariants, all clock-free, each with its own signature:
 from __future__ import annotations
 
 from checks import c02, c04
+from vkit.harness import sq_drive
 from vkit.core import Sub, Violation, given_run
 from vkit.gen.choice import from_bytes
 from vkit.harness.resolvers import AsyncPlan, Boom, make_async_resolvers
@@ -767,13 +768,19 @@ def subchecks(tier):
     if tier == "quick":
         return [Sub("scenarios", _scenarios(300, 3), shards=10, weight=3),
                 Sub("subscriptions", _subscriptions(250, 3), shards=3, weight=1),
-                Sub("backpressure", _backpressure(150), shards=3, weight=1)]
+                Sub("backpressure", _backpressure(150), shards=3, weight=1),
+                # the real StreamItemQueue alone under abort / failure x completion orders: no hang, nothing left
+                # running when the abort has been awaited, cleanup ran, discarded results' work cancelled
+                Sub("stream_queue", sq_drive.subcheck("C06", 3, 24, 5), shards=3, weight=1)]
     return [Sub("scenarios", _scenarios(18000, 8), shards=16, weight=3),
             Sub("subscriptions", _subscriptions(12000, 6), shards=16, weight=1),
-            Sub("backpressure", _backpressure(8000), shards=16, weight=1)]
+            Sub("backpressure", _backpressure(8000), shards=16, weight=1),
+            Sub("stream_queue", sq_drive.subcheck("C06", 4, 120, 1), shards=16, weight=1)]
 
 
 def replay(case):
+    if "sq_spec" in case:
+        return sq_drive.replay(case, "C06")
     if "sub_stops" in case:
         return eval_subscription(case)[0]
     if "gated" in case and "n" in case:
